@@ -279,6 +279,49 @@ def flip_comparisons(tree):
     return count[0]
 
 
+def _signatures(trees):
+    """{simple name: [parameter names]} for module-level functions and classes (their __init__) whose simple name is unique in the tree set
+    and whose signature has no *args / **kwargs / positional-only parameters"""
+    seen, sig = {}, {}
+    for tree in trees:
+        for st in tree.body:
+            if isinstance(st, ast.FunctionDef):
+                seen[st.name] = seen.get(st.name, 0) + 1
+                a = st.args
+                if not a.vararg and not a.kwarg and not a.posonlyargs:
+                    sig[st.name] = [p.arg for p in a.args]
+            elif isinstance(st, ast.ClassDef):
+                seen[st.name] = seen.get(st.name, 0) + 1
+                init = [x for x in st.body if isinstance(x, ast.FunctionDef) and x.name == "__init__"]
+                if len(init) == 1 and not st.decorator_list and not init[0].args.vararg and not init[0].args.kwarg and not init[0].args.posonlyargs:
+                    sig[st.name] = [p.arg for p in init[0].args.args][1:]
+    return {k: v for k, v in sig.items() if seen.get(k) == 1}
+
+
+def keyword_arguments(tree, sig):
+    """f(a, b) -> f(x=a, y=b) for calls of repository functions / constructors by their simple name (signature known and unique):
+    the same binding, written with the parameter names"""
+    count = [0]
+    local_defs = {st.name for st in ast.walk(tree) if isinstance(st, (ast.FunctionDef, ast.ClassDef))}
+    imported = {(al.asname or al.name) for st in ast.walk(tree) if isinstance(st, ast.ImportFrom) and (st.module or "").startswith("batchie") for al in st.names}
+
+    class T(ast.NodeTransformer):
+        def visit_Call(self, n):
+            self.generic_visit(n)
+            if isinstance(n.func, ast.Name) and n.func.id in sig and (n.func.id in local_defs or n.func.id in imported) and n.args \
+                    and not any(isinstance(a, ast.Starred) for a in n.args) and not any(k.arg is None for k in n.keywords) and len(n.args) <= len(sig[n.func.id]):
+                names = sig[n.func.id][:len(n.args)]
+                if not set(names) & {k.arg for k in n.keywords}:
+                    n.keywords = [ast.keyword(arg=nm, value=a) for nm, a in zip(names, n.args)] + n.keywords
+                    n.args = []
+                    count[0] += 1
+            return n
+    for fn in [x for x in ast.walk(tree) if isinstance(x, (ast.FunctionDef, ast.AsyncFunctionDef))]:
+        T().visit(fn)
+    ast.fix_missing_locations(tree)
+    return count[0]
+
+
 def transformed_copy(mode, suffix="_q"):
     """a scratch copy of the analysed tree (VERIF_REPO_ROOT or /repo) with one transformation applied everywhere; (path, number of rewrites)"""
     src_root = os.environ.get("VERIF_REPO_ROOT", "/repo")
@@ -289,10 +332,17 @@ def transformed_copy(mode, suffix="_q"):
     for root, _, fs in os.walk(os.path.join(scratch, "src", "batchie")):
         files += [os.path.join(root, f) for f in fs if f.endswith(".py") and not f.endswith("_test.py")]
     files.append(os.path.join(scratch, "nextflow", "scripts", "batchie.py"))
+    sig = _signatures([ast.parse(open(p_).read()) for p_ in files if os.path.exists(p_)]) if mode == "keyword-arguments" else {}
     for path in files:
         if not os.path.exists(path):
             continue
         tree = ast.parse(open(path).read())
+        if mode == "keyword-arguments":
+            k = keyword_arguments(tree, sig)
+            if k:
+                open(path, "w").write(ast.unparse(tree) + "\n")
+                total += k
+            continue
         k = {"hoist-returns": hoist_returns, "name-arguments": name_arguments, "unelse": unelse, "else-after-exit": else_after_exit,
              "flip-comparisons": flip_comparisons}.get(mode, lambda t: rename_locals(t, suffix))(tree)
         if k:
@@ -310,7 +360,7 @@ def main():
     if "--only" in sys.argv:
         only = sys.argv[sys.argv.index("--only") + 1].split(",")
     mode = "rename-locals"
-    for m_ in ("hoist-returns", "name-arguments", "unelse", "else-after-exit", "flip-comparisons"):
+    for m_ in ("hoist-returns", "name-arguments", "unelse", "else-after-exit", "flip-comparisons", "keyword-arguments"):
         if "--" + m_ in sys.argv:
             mode = m_
     out = tempfile.mkdtemp(prefix="batchie-verif-alpha-out-", dir="/var/tmp")
